@@ -52,6 +52,11 @@ package criteria_ordering
 //@             (sorted[0].Weight <= 1.0 ? (dif == 1.0 - sorted[0].Weight && minWeight == 1.0) : (dif == 0.0 && minWeight == sorted[0].Weight))
 //@   loop 1 hint [inverse_of_the_shifted_importance] let k = i in sorted[k].Weight == minWeight / (head(sorted[k].Weight) + dif) && total == head(total) + sorted[k].Weight
 
+// Parse: the ordering is the one the request names; none named stays empty (the first registered resolver is then taken)
+//@ func Parse
+//@   property C15 C16 C20
+//@   ensures [as_requested_empty_when_absent] fresh(result) && result.Ordering == (decoded_has(*props, "Ordering") ? decoded_str(*props, "Ordering") : "")
+
 // the ordering named in the request (the first registered one when none is named); unknown names are rejected
 //@ spec resolverName(r CriteriaOrderingResolver) string
 //@ ifacemethod CriteriaOrderingResolver.Identifier
@@ -62,3 +67,12 @@ package criteria_ordering
 //@             : (exists k int :: 0 <= k && k < len(*resolvers) && result == (*resolvers)[k] && resolverName(result) == resolver.Ordering
 //@                && forall j int :: 0 <= j && j < k ==> resolverName((*resolvers)[j]) != resolver.Ordering)
 //@   loop 1 invariant [none_so_far] forall j int :: 0 <= j && j < iter ==> resolverName((*resolvers)[j]) != resolver.Ordering
+
+// ---- wire format: the JSON names under which requests are read and responses are written (struct tags; encoding/json
+// itself is outside the verified code).  A renamed or omitempty field changes what a client sees without changing any Go value.
+//@ wire CriteriaOrdering
+//@   property C01 C15 C20
+//@   json Ordering=ordering
+//@ wire randomProps
+//@   property C01 C15 C20
+//@   json RandomSeed=randomSeed
